@@ -281,7 +281,7 @@ def fmt_op(op) -> str:
     if k == "index":
         return f"[{op[1]}]"
     if k == "chain":
-        return f"chain({fmt_prog(op[1])})"
+        return f"{'rchain' if len(op) > 2 and op[2] else 'chain'}({fmt_prog(op[1])})"
     if k == "join":
         return f"{'rjoin' if op[3] else 'join'}({fmt_prog(op[1])}{', ' + fmt(op[2]) if op[2] else ''})"
     if k == "mat":
